@@ -1470,3 +1470,68 @@ def r14_4(rep):
                     if a["k"] == "Assign" and strip(a["l"]).get("id") == l["id"] and strip(a["r"]).get("id") == r["id"]:
                         ok = True
     rep.check(uses and ok, "latest-stable:is-maximum", "LATEST_STABLE_RUST keeps the release with the largest minor of stable_releases()", ls.loc(ls.root))
+
+
+# ---------------------------------------------------------------------------------------------------------
+# R14.5  is_available answers from the edition table for every numbered target
+# ---------------------------------------------------------------------------------------------------------
+def _minor_of_target(av, e):
+    e = resolve_local(av, e)
+    return is_call_to(e, RT + "::minor") and param_index(av, e["recv"]) == 1
+
+
+def _only_without_minor(av, n):
+    """n executes only when `target.minor()` is None (nightly): inside the `else` of `let Some(..) = target.minor()`
+    or in the `None` arm of a match / if-let on it."""
+    child = n
+    for a in av.ancestors(n):
+        role = av.role[child["_i"]]
+        if a["k"] == "Let" and role == "els" and _minor_of_target(av, a.get("init") or {}):
+            pv = pat_variants(a["pat"])
+            if any(v.endswith("::Some") for v in pv):
+                return True
+        if a["k"] == "Match" and isinstance(role, tuple) and role[0] == "arm" and _minor_of_target(av, a["scrut"]):
+            pv = pat_variants(a["arms"][role[1]]["pat"])
+            if pv and all(v.endswith("::None") for v in pv):
+                return True
+        if a["k"] == "If" and role == "else" and strip(a["cond"]).get("k") == "LetCond":
+            c = strip(a["cond"])
+            if _minor_of_target(av, c["init"]) and any(v.endswith("::Some") for v in pat_variants(c["pat"])):
+                return True
+        child = a
+    return False
+
+
+@RULES.rule("R14.5", "RustEdition::is_available answers from the edition table for every numbered target", floor=3)
+def r14_5(rep):
+    """Necessary: the only target without a minor version is nightly; for every `1.N` the answer has to be the row comparison
+    `first_minor <= N`.  An extra exit (`if !LATEST_STABLE_RUST.is_compatible(&target) { return true }`) makes
+    `--rust-target 1.83 --rust-edition 2024` generate edition-2024 bindings instead of failing with UnsupportedEdition, and
+    turns `latest_edition()` of 1.83/1.84 into 2024."""
+    prog = rep.prog
+    av = rep.need(prog.fn(RE + "::is_available"), "RustEdition::is_available")
+    exits = [(n, n.get("e")) for n in av.walk() if n["k"] == "Ret"]
+    root = av.root
+    tails = value_leaves(av, root) if root.get("k") == "Block" else [root]
+    table = 0
+    for n, e in exits + [(t, t) for t in tails]:
+        if e is None:
+            continue
+        for leaf in value_leaves(av, resolve_local(av, e)) or [strip(e)]:
+            leaf = resolve_local(av, leaf)
+            where = av.loc(leaf)
+            if leaf.get("k") == "Lit" and leaf.get("v") is True:
+                # a `true` arm of the table match is read by edition_tables (minimum 0); anything else must be the nightly exit
+                in_table = any(a["k"] == "Match" and param_index(av, a["scrut"]) == 0 for a in av.ancestors(leaf))
+                rep.check(in_table or _only_without_minor(av, n), "is_available:true-only-for-nightly",
+                          "`true` is answered only where target.minor() is None (nightly)", where)
+            elif leaf.get("k") == "Lit" and leaf.get("v") is False:
+                rep.ok("is_available:false-exit", "a rejecting exit cannot enable an unsupported edition")
+            elif leaf.get("k") == "Binary" and leaf["op"] in ("<=", ">=", "<", ">") and \
+                    any(a["k"] == "Match" and param_index(av, a["scrut"]) == 0 for a in av.ancestors(leaf)):
+                table += 1
+                rep.ok("is_available:row@%d" % table, "table row `%s`" % av.canon(leaf, 3))
+            else:
+                rep.bad("is_available:unreadable-exit", "exit value `%s` is neither the nightly exit nor a row of the edition table"
+                        % av.canon(leaf, 4)[:120], where)
+    rep.need(table >= 3, "edition table rows in is_available (2018, 2021, 2024)")
